@@ -14,6 +14,7 @@ Oracle (no model): Walk returns; no Go runtime fatal error; no data race report;
 import concurrent.futures as cf
 import itertools, json, os, shutil
 from checks import _walker as W
+from checks import _cliworld
 
 PROPERTY = "C04"
 LEVEL = "proof"
@@ -142,6 +143,9 @@ def run(ctx):
     _errchan.run(ctx)
     # ---- (c) whole builds through the CLI under a wall bound: timeouts, lost blobs, alias fan-out -------
     run_cli(ctx)
+    # ---- (d) broad randomized CLI worlds (shared generator; the C04-owned oracles — termination, crash, resolution — are reported here)
+    results, cov = _cliworld.run_worlds(ctx, 30 if quick else 300, "C04")
+    _cliworld.report(ctx, results, cov, "C04")
     if disagreements and len(ctx.violations) == viol_before:
         c, o, r = min(disagreements, key=lambda t: t[0]["n"])
         ctx.violation("a trace of the real walker is not a run of the model: " + str(r.get("why", r)),
@@ -350,6 +354,8 @@ def check_intest(ctx, cases, res, info, mode):
 
 
 def replay(ctx, rep):
+    if "world" in rep:
+        return _cliworld.replay(ctx, rep)
     if rep.get("request", {}).get("op") == "restore.load":
         import os, shutil
         rq = dict(rep["request"], dir=os.path.join(ctx.scratch("replay-restore"), "1"))
